@@ -29,6 +29,16 @@ class Rec:
         return "<%s %s>" % (type(self).__name__, {k: v for k, v in self.__dict__.items() if k != "_keys"})
 
 
+class FalsyRec(Rec):
+    """A data object that is falsy (bool() is False, len() is 0) but carries attributes and keys."""
+
+    def __bool__(self):
+        return False
+
+    def __len__(self):
+        return 0
+
+
 _NAMED_REC = {}
 
 
@@ -131,6 +141,7 @@ class Plan:
         self.probes = {}
         self.refused = False  # request refused before execution (operation / variables)
         self.over = {}
+        self.no_variables = False  # no operation of the document declares a variable
         self.item_sites = {}  # item position -> (list object, index)
         self.default_sites = {}  # default-resolved field position -> (parent object, FieldDef)
 
@@ -145,7 +156,7 @@ class RefExec:
         self.tape = tape
         self.stream = stream
         self.faults = faults or {}  # path -> kind
-        self.k = dict(null_pct=12, max_list=3, budget=160, decoy_pct=60, type_as_object_pct=0)
+        self.k = dict(null_pct=12, max_list=3, budget=160, decoy_pct=60, type_as_object_pct=0, long_list_pct=0)
         if knobs:
             self.k.update(knobs)
         self.frags = doc.fragments()
@@ -177,6 +188,7 @@ class RefExec:
             p.refused = True
             return p
         p.op = op
+        p.no_variables = all(not o.vardefs for o in ops)
         variables, bad, amb = coerce_variable_values(self.s, op.vardefs, raw_vars)
         p.var_bad, p.var_ambiguous = bad, amb
         if bad or amb:
@@ -384,6 +396,9 @@ class RefExec:
             n = t.rint(0, k["max_list"])
             if over:
                 n = min(n, 1)
+            elif k.get("long_list_pct") and inner[1][0] != "L" and self.s.is_leaf(named(inner[1])) and t.chance(k["long_list_pct"]):
+                n = 257 + t.draw(80)  # longer than any internal chunk / batch size
+                self.plan.probe("list_longer_than_256")
             if n >= 2:
                 self.plan.probe("list_len>=2")
             if inner[1][0] == "L" or (inner[1][0] == "NN" and inner[1][1][0] == "L"):
@@ -493,6 +508,9 @@ class RefExec:
             o = {}
         elif style == "class":
             o = named_rec_class(truth)()
+        elif t.chance(15):
+            o = FalsyRec()
+            self.plan.probe("falsy_parent_object")
         else:
             o = Rec()
         oid = self.new_id(path)
@@ -653,6 +671,16 @@ class UnprintableError(Exception):
 
     def __repr__(self):
         return "UnprintableError()"
+
+
+class PathCarryingError(Exception):
+    """A non-library exception that happens to have `path` / `locations` attributes of its own
+    (like ImportError.path or jsonschema's ValidationError.path)."""
+
+    def __init__(self, msg):
+        super().__init__(msg)
+        self.path = "/some/module/file.py"
+        self.locations = ["somewhere"]
 
 
 class FaultError(Exception):
